@@ -4,7 +4,7 @@
 (*   "badheader" C04  a malformed header yields an error and no message     *)
 (*   "field"     C12  Data() recovers what the kernel encoded               *)
 (*   "ptotal"    C05  no panic, no hang, repeated calls agree               *)
-EXTENDS Integers, Sequences, FiniteSets, TLC, Bytes, AuditRecord
+EXTENDS Integers, Sequences, FiniteSets, TLC, Bytes, AuditRecord, UAPI
 
 PFlag(p, w) == [prop |-> p, why |-> w]
 
@@ -67,6 +67,11 @@ JudgeField(o) ==
         IF ~o.present \/ o.gotname \notin ErrnoNames(o.errno) THEN << PFlag("C12", "negative exit code does not become the errno's name") >> ELSE << >>
     ELSE IF o.how = "arch" THEN
         IF ~o.present \/ o.gotname # ArchName(o.arch) THEN << PFlag("C12", "arch value does not become the architecture's name") >> ELSE << >>
+    ELSE IF o.how = "uapi_syscall" THEN
+        \* independent of the library's tables: where the kernel's syscall table (UAPI.tla) is transcribed,
+        \* the number must become that name
+        IF NamesOfNr(o.archname, o.nr) # {} /\ (~o.present \/ o.gotname \notin NamesOfNr(o.archname, o.nr))
+        THEN << PFlag("C12", "syscall number does not become the name the kernel's table gives it") >> ELSE << >>
     ELSE IF o.how = "xtags" THEN
         \* beyond the listed properties: the rule keys the kernel logs (joined by 0x01, hex when there are
         \* several) come back as Tags()
